@@ -376,14 +376,13 @@ pub fn check_c18(rec: &mut Recorder, f: &Flat, pv: &PView) {
         if f.is_hoff(t) {
             for e in f.edges.iter().filter(|e| e.src == t) {
                 if e.delay.is_none() {
-                    // the borrower runs before the pipe consumer of the handoff: an earlier subgraph, or
-                    // earlier inside the same subgraph
+                    // the borrower runs before the pipe consumer of the handoff, in an earlier subgraph: the consumer's
+                    // subgraph drains the handoff before any of its operators runs, so the two never share a subgraph
+                    // (finding F25, fixed: borrower/consumer are enemy pairs of the partitioner)
                     let (b, c) = (f.node(r.node).key, f.node(e.dst).key);
                     let same = p.node_subgraph(b) == p.node_subgraph(c);
-                    let within = same && p.node_subgraph(b).is_some_and(|sg| {
-                        let ns = p.subgraph(sg);
-                        ns.iter().position(|&x| x == b) < ns.iter().position(|&x| x == c)
-                    });
+                    rec.check(!same || b == c, "c18-borrower-shares-consumer-subgraph", &format!("borrower {} consumer {}", r.node, e.dst));
+                    let within = b == c;
                     let cl = f.node(e.dst).lp;
                     if cl.is_some() && !inside(f.node(r.node).lp, cl.unwrap()) {
                         rec.count("borrower-outside-consumer-loop-block");
